@@ -47,7 +47,15 @@ BigType(ix, nf, t) == [name |-> "Big", record |-> FALSE, cases |-> BigCases(0, i
 \* ------------------------------------------------------------------ C10
 AllFeatures == {"metadata", "input_redeemer", "mint", "mint_redeemer", "burn_same", "burn_other_asset", "burn_all",
                 "optional_empty", "optional_full", "reference", "reference_twice", "collateral", "signers", "signers_dup", "signers_apart",
-                "datum", "second_input", "validity"}
+                "datum", "second_input", "validity",
+                "donation", "plutus_witness", "plutus_witness_v2", "native_witness", "publish_script", "vote_deleg"}
+
+\* the block-presence lattice: every subset of the core features, and every subset of the chain-specific ones
+\* inside a few core contexts (the two families multiply otherwise)
+ChainFeatures == {"donation", "plutus_witness", "plutus_witness_v2", "native_witness", "publish_script", "vote_deleg"}
+CoreContexts == {{}, {"mint", "mint_redeemer", "collateral"}, {"input_redeemer", "metadata", "signers"}, {"mint", "mint_redeemer", "burn_all", "datum"}}
+C10Lattice == (SUBSET (Features \ ChainFeatures))
+              \cup {a \cup b : a \in {x \cap Features : x \in CoreContexts}, b \in SUBSET (Features \cap ChainFeatures)}
 
 VARIABLES c
 vars == <<c>>
@@ -113,7 +121,13 @@ C10Prog(fs) ==
                  !.collateral = IF has("collateral") THEN [k |-> "some", from |-> Sender, min_amount |-> AdaE(Lit(5)), ref |-> Absent] ELSE Absent,
                  !.signers = IF has("signers") THEN [k |-> "some", items |-> <<Sender>> \o (IF has("signers_dup") THEN <<Sender, Hex(KeyHash)>> ELSE <<>>)
                                                                          \o (IF has("signers_apart") THEN <<Receiver, Sender, MyParty, Receiver>> ELSE <<>>)] ELSE Absent,
-                 !.validity = IF has("validity") THEN [k |-> "some", since |-> TipSlot, until |-> Absent] ELSE Absent]
+                 !.validity = IF has("validity") THEN [k |-> "some", since |-> TipSlot, until |-> Absent] ELSE Absent,
+                 !.cardano = (IF has("donation") THEN <<Donation(Lit(5))>> ELSE <<>>)
+                             \o (IF has("plutus_witness") THEN <<PlutusW(Lit(3), Hex(PlutusScriptBytes))>> ELSE <<>>)
+                             \o (IF has("plutus_witness_v2") THEN <<PlutusW(Lit(2), Hex(PlutusScriptBytes))>> ELSE <<>>)
+                             \o (IF has("native_witness") THEN <<NativeW(Hex(NativeScriptBytes))>> ELSE <<>>)
+                             \o (IF has("publish_script") THEN <<Publish(Receiver, AdaE(Lit(3000000)), RecAll, Lit(3), Hex(PlutusScriptBytes))>> ELSE <<>>)
+                             \o (IF has("vote_deleg") THEN <<VoteDeleg(Hex(DRepHash), Hex(StakeKeyAddr)), VoteDeleg(Hex(DRepHash), Hex(StakeKeyAddr))>> ELSE <<>>)]
         base == EnvOf(1)
     IN  [prog |-> [decls |-> Decls, tx |-> tx],
          env |-> [base EXCEPT !.utxos = [source |-> base.utxos.source, collateral |-> base.utxos.collateral,
@@ -121,7 +135,7 @@ C10Prog(fs) ==
 
 Init == c \in (IF Mode = "c08" THEN C08Cases
                ELSE IF Mode = "c09" THEN C09Cases
-               ELSE {[kind |-> "c10", fs |-> fs] : fs \in SUBSET Features})
+               ELSE {[kind |-> "c10", fs |-> fs] : fs \in C10Lattice})
 Next == UNCHANGED c
 
 Built == IF c.kind = "c08" THEN C08Prog(c) ELSE IF c.kind = "c09" THEN C09Prog(c, 1) ELSE C10Prog(c.fs)
